@@ -127,9 +127,9 @@ where
         // Two shapes can only intersect when their centres are within twice the enclosing radius.
         // The rows of periodic images along each cell vector are separated by the height of the
         // cell, so this is the number of rows of images which are close enough to intersect.
-        let min_height = f64::min(self.cell.a(), self.cell.b()) * self.cell.angle().sin();
-        let periodic_range =
-            i64::max(1, (2. * self.shape.enclosing_radius() / min_height).ceil() as i64);
+        let reach = 2. * self.shape.enclosing_radius();
+        let range_a = i64::max(1, (reach / (self.cell.a() * self.cell.angle().sin())).ceil() as i64);
+        let range_b = i64::max(1, (reach / (self.cell.b() * self.cell.angle().sin())).ceil() as i64);
         // Compare within the current cell
         for (index, shape1) in self
             .cartesian_positions()
@@ -152,7 +152,8 @@ where
         for transform1 in self.cartesian_positions() {
             let shape1 = self.shape.transform(&transform1);
             for position in self.relative_positions() {
-                for transform2 in self.cell.periodic_images(position, periodic_range, false) {
+                // The nearest images come first, a cell too small for the shape is found at once
+                for transform2 in self.cell.periodic_images_within(position, range_a, range_b) {
                     let distance = (transform1.position() - transform2.position()).norm_squared();
                     if distance <= radius_sq {
                         let shape2 = self.shape.transform(&transform2);
